@@ -218,6 +218,8 @@ def replay(rep, work=None):
     toks = line[-1].split(None, 2)
     if toks[1] == "True":
         return False, "harness returned True on the concrete values"
+    if toks[1] == "EXC" and len(toks) > 2 and toks[2].startswith("TypeError check()"):
+        return False, "replay could not call the harness: " + toks[2]
     return True, line[-1][len("REPLAY-RESULT "):]
 
 
